@@ -8,6 +8,7 @@
 -/
 import WD.Proofs.Pipeline.Theorems
 import WD.Proofs.Pipeline.FlatSpec
+import WD.Proofs.Pipeline.Sound
 namespace WD.C03
 open WD WD.Pipe
 
@@ -41,6 +42,29 @@ theorem contract_step (fs0 : FS) (hwf : fs0.WF) (full : Bool) (ops : List Op) (o
   obtain ⟨_, r2, r3⟩ := run_rec _ ops inv hs hc hv.1
   have st := step_rec _ op (r3 hns) hns r2 hv.2.1
   rw [st.events, run_fs, h4, run_full, h5]
+
+/-- JUSTIFIED: every event delivered for an operation is explained by that operation — `Justified` spells the
+    property's clauses out: a created event names an entry (of that flavour) that exists in the tree afterwards; a
+    deleted event one that existed before and is gone; a moved event's source and destination are the old and the new
+    name of ONE AND THE SAME entry (same inode); a modified / opened / closed event an entry that exists; an event is
+    synthetic only below a moved or newly arrived directory of the same operation, its source the same relative path
+    under the old name.  (`_partial`: drained regime, recursive watch.) -/
+theorem sound_partial (fs0 : FS) (hwf : fs0.WF) (full : Bool) (ops : List Op) (op : Op)
+    (hv : allValid (Sys.start fs0 true full) (ops ++ [op]) = true)
+    (hns : ((Sys.start fs0 true full).run ops).1.stopped = false) :
+    ∀ e ∈ ((((Sys.start fs0 true full).run ops).1).op op).2,
+      Justified (fsRun fs0 ops) (fsAfter (fsRun fs0 ops) op) ((((Sys.start fs0 true full).run ops).1).op op).2 e := by
+  have hstep := contract_step fs0 hwf full ops op hv hns
+  obtain ⟨inv, hs, hc, h4, _⟩ := start_rec fs0 hwf full
+  rw [allValid_append] at hv
+  simp only [Bool.and_eq_true, allValid] at hv
+  obtain ⟨_, _, r3⟩ := run_rec _ ops inv hs hc hv.1
+  have hwf' : (fsRun fs0 ops).WF := by
+    have := (r3 hns).wf; rwa [run_fs, h4] at this
+  have hvop : validOp (fsRun fs0 ops) op = true := by
+    have := hv.2.1; rwa [run_fs, h4] at this
+  rw [hstep]
+  exact contract_sound hwf' full op hvop
 
 /-- the flavour of every event is what the native record said (IN_ISDIR) -/
 theorem typing (fs : FS) (recursive full : Bool) (ev : LEv) (e : PEv)
